@@ -24,6 +24,7 @@ Record config := {
   cap_saturating : bool;           (* well_known.rs capacity: true = saturating_sub(1), false = - 1 *)
   maven_ns_segments : bool;        (* package_type.rs maven check: true = no non-empty segment, false = is_empty() *)
   dir_sub : bool; dir_qual : bool; dir_ver : bool;   (* parse.rs: true = rsplit_once (last occurrence), false = split_once, at '#', '?', '@' *)
+  typed_keys : list bytes;         (* KEY of the str_ref_qualifier! types, in source order: RepositoryUrl, DownloadUrl, VcsUrl, FileName, gem::Platform, maven::Classifier, maven::Type *)
 }.
 
 Section M.
